@@ -187,9 +187,27 @@ def headerKeys (mapping : List (String × CsvMapping)) (sorted : Bool) : List St
 def rowColumns (mapping : List (String × CsvMapping)) (sorted : Bool) : List (String × CsvMapping) :=
   if sorted then sortBy (fun a b => strLt a.1 b.1) mapping else mapping.reverse
 
+/-- does a CSV field need quoting (`text.contains([',', '"', '\n', '\r'])`)? -/
+def needsQuotes (t : List Char) : Bool :=
+  t.any fun c => c == ',' || c == '"' || c == '\n' || c == '\r'
+
+/-- `text.replace('"', "\"\"")` -/
+def doubleQuotes : List Char → List Char
+  | [] => []
+  | c :: cs => if c = '"' then '"' :: '"' :: doubleQuotes cs else c :: doubleQuotes cs
+
+/-- `csv_field`: RFC 4180 escaping of one field -/
+def csvField (t : List Char) : List Char :=
+  if needsQuotes t then '"' :: (doubleQuotes t ++ ['"']) else t
+
+/-- `csv_cell`: what a mapped value says — a string its text, anything else its compact JSON text -/
+def cellValueText : Json → List Char
+  | .str s => s.toList
+  | v => compact v
+
 def initialContents : Format → Option (List Char)
   | .json nd => if nd then none else some (txt "[\n")
-  | .csv m s => some (joinWith [','] ((headerKeys m s).map String.toList) ++ ['\n'])
+  | .csv m s => some (joinWith [','] ((headerKeys m s).map fun k => csvField k.toList) ++ ['\n'])
 
 def finalContents : Format → Option (List Char)
   | .json nd => if nd then none else some (txt "\n]")
@@ -200,10 +218,16 @@ def delimiter : Format → Option (List Char)
   | .json nd => if nd then none else some (txt ",\n")
   | .csv _ _ => some ['\n']
 
-/-- one cell: the value's compact text, or empty when the mapping failed -/
+/-- the value of one cell as a reader should get it back: the mapped value's text, empty when the mapping failed -/
+def cellValue (N : NumOps) (m : CsvMapping) (resp : Json) : List Char :=
+  match m.apply N resp with
+  | some v => cellValueText v
+  | none => []
+
+/-- one cell as written: the CSV-escaped value (an empty field when the mapping failed) -/
 def cellText (N : NumOps) (m : CsvMapping) (resp : Json) : List Char :=
   match m.apply N resp with
-  | some v => compact v
+  | some v => csvField (cellValueText v)
   | none => []
 
 /-- keys of the columns whose mapping failed (the `errors` map of the formatter) -/
@@ -214,14 +238,31 @@ def failedKeys (N : NumOps) (cols : List (String × CsvMapping)) (resp : Json) :
 def csvErrorValue (keys : List String) : Json :=
   .obj [("csv", .obj (keys.map fun k => (k, .str "")))]
 
-/-- the key the CSV formatter stores its mapping errors under (code as of the fix: an existing `error` is kept) -/
-def csvErrorKey (resp : Json) : String :=
-  if (resp.get? "error").isSome then "csv_error" else "error"
+/-- the keys the CSV formatter tries, in order: `error`, `csv_error`, `csv_error_2`, `csv_error_3`, … -/
+def errorKeyName (attempt : Nat) : String :=
+  if attempt = 0 then "error" else if attempt = 1 then "csv_error" else "csv_error_" ++ toString attempt
+
+/-- the `while response.get(key).is_some()` loop: the first key of the sequence that is not in the response
+(nothing already there is ever replaced).  `none`: the fuel ran out — the loop did not end. -/
+def freshErrorKey (resp : Json) : Nat → Nat → Option String
+  | 0, _ => none
+  | fuel + 1, attempt =>
+    if (resp.get? (errorKeyName attempt)).isNone then some (errorKeyName attempt)
+    else freshErrorKey resp fuel (attempt + 1)
+
+def entryCount : Json → Nat
+  | .obj kvs => kvs.length
+  | _ => 0
+
+/-- an object with `n` entries leaves one of the first `n + 1` keys free (proved: `freshErrorKey_terminates`) -/
+def csvErrorKey (resp : Json) : Option String := freshErrorKey resp (entryCount resp + 2) 0
 
 inductive Outcome (α : Type) where
   | ok (a : α)
   /-- `response[key] = …` on a value that is neither an object nor `null` panics inside `serde_json` -/
   | panic
+  /-- the search for a free error key did not end -/
+  | diverges
   deriving Inhabited
 
 def csvRow (N : NumOps) (cols : List (String × CsvMapping)) (resp : Json) : List Char :=
@@ -237,9 +278,12 @@ def formatResponse (N : NumOps) (f : Format) (resp : Json) : Outcome (List Char 
     let errs := failedKeys N cols resp
     if errs.isEmpty then .ok (row, resp)
     else
-      match Json.indexAssign resp (csvErrorKey resp) (csvErrorValue errs) with
-      | some resp' => .ok (row, resp')
-      | none => .panic
+      match csvErrorKey resp with
+      | none => .diverges
+      | some key =>
+        match Json.indexAssign resp key (csvErrorValue errs) with
+        | some resp' => .ok (row, resp')
+        | none => .panic
 
 /-! ### `WriteMode::open_file`, `ResponseOutputPolicy::build` -/
 
@@ -275,7 +319,15 @@ structure FileSink where
   flushes : Nat
   /-- a panic while the lock was held poisons both mutexes: later writes fail without writing -/
   poisoned : Bool
+  /-- the configured `filename` (what `close` reports) -/
+  name : String := ""
+  /-- the device refuses every write of at least one byte (`/dev/full`, a full disk): `writeln!` returns an
+  error, nothing reaches the file -/
+  failing : Bool := false
   deriving Inhabited
+
+/-- the lock is not poisoned and the device takes writes -/
+def FileSink.Healthy (s : FileSink) : Prop := s.poisoned = false ∧ s.failing = false
 
 def FileSink.contents (s : FileSink) : List Char := s.file.flatten
 
@@ -296,12 +348,104 @@ def build (mode : WriteMode) (f : Format) (rate : Option Int) (existing : Option
     | none => .badFlushRate c
     | some n => .ok { format := f, flushEvery := n, file := [c], iterations := 0, flushes := 0, poisoned := false }
 
+/-- what is at the configured path before `build` -/
+inductive PathState where
+  | missing
+  | file (contents : List Char)
+  /-- the path names a directory -/
+  | directory
+  /-- the parent directory does not exist: nothing can be created -/
+  | noParent
+  /-- a device that exists, opens, and refuses every write of at least one byte (`/dev/full`) -/
+  | full
+  deriving Inhabited
+
+inductive OpenResult where
+  /-- opened for appending; `contents` is what the file holds now -/
+  | ok (contents : List Char) (failing : Bool)
+  /-- `WriteMode::Error` and the path exists -/
+  | refused
+  /-- `std::fs::write` of the header or `OpenOptions::append.open` failed -/
+  | ioError
+  deriving Inhabited
+
+/-- `WriteMode::open_file` over every kind of path.  `path.exists()` is true for a file, a directory and a
+device; the header is written with `std::fs::write` (create + truncate + write all), then the path is opened
+in append mode. -/
+def openPath (mode : WriteMode) (f : Format) : PathState → OpenResult
+  | .missing => .ok (headerText f) false
+  | .file c =>
+    match mode with
+    | .append => .ok c false
+    | .overwrite => .ok (headerText f) false
+    | .error => .refused
+  | .directory => match mode with | .error => .refused | _ => .ioError
+  | .noParent => .ioError
+  | .full =>
+    match mode with
+    | .append => .ok [] true
+    | .overwrite => if (headerText f).isEmpty then .ok [] true else .ioError
+    | .error => .refused
+
+/-- what is at the path after `open_file` -/
+def pathAfterOpen (mode : WriteMode) (f : Format) (st : PathState) : PathState :=
+  match st, openPath mode f st with
+  | .full, _ => .full
+  | _, .ok c _ => .file c
+  | st, _ => st
+
+inductive BuildAtResult where
+  | ok (s : FileSink)
+  | badFlushRate
+  | refused
+  | ioError
+  deriving Inhabited
+
+/-- `ResponseOutputPolicy::File::build` at a path of any kind -/
+def buildAt (mode : WriteMode) (name : String) (f : Format) (rate : Option Int) (st : PathState) : BuildAtResult :=
+  match openPath mode f st with
+  | .refused => .refused
+  | .ioError => .ioError
+  | .ok c failing =>
+    match flushEvery rate with
+    | none => .badFlushRate
+    | some n => .ok { format := f, flushEvery := n, file := [c], iterations := 0, flushes := 0, poisoned := false,
+                      name := name, failing := failing }
+
+/-- a member of a (flattened) `ResponseOutputPolicy::Combined` -/
+structure Member where
+  name : String
+  format : Format
+  rate : Option Int
+  path : PathState
+  deriving Inhabited
+
+/-- `ResponseOutputPolicy::Combined::build`: members are built in order (always `WriteMode::Append`); the first
+failure ends the build with an error — the files of the members before it (and of the failing member, when
+only its flush rate was wrong) have been created by then.  Result: what is at every member's path afterwards,
+and the sinks when all were built. -/
+def buildAll : List Member → List PathState × Option (List FileSink)
+  | [] => ([], some [])
+  | m :: ms =>
+    let after := pathAfterOpen .append m.format m.path
+    match buildAt .append m.name m.format m.rate m.path with
+    | .ok s =>
+      match buildAll ms with
+      | (sts, some ss) => (after :: sts, some (s :: ss))
+      | (sts, none) => (after :: sts, none)
+    | _ => (after :: ms.map (·.path), none)
+
 inductive WriteResult where
   | ok (s : FileSink) (resp : Json)
   /-- `ReadOnlyPoisonError`: nothing written, response untouched -/
   | lockError (s : FileSink)
   /-- the formatter panicked while holding the lock -/
   | panic (s : FileSink)
+  /-- the formatter never returned: the lock stays taken -/
+  | diverges (s : FileSink)
+  /-- `writeln!` failed (`InternalError`): nothing appended, counter untouched — but the formatter has already
+  run, so the response carries its bookkeeping -/
+  | ioError (s : FileSink) (resp : Json)
   deriving Inhabited
 
 /-- the chunk one `write_response` appends: `writeln!(file, "{}", row)` -/
@@ -314,15 +458,22 @@ def FileSink.write (N : NumOps) (s : FileSink) (resp : Json) : WriteResult :=
   else
     match formatResponse N s.format resp with
     | .panic => .panic { s with poisoned := true }
+    | .diverges => .diverges s
     | .ok (row, resp') =>
+      if s.failing then .ioError s resp' else
       let it := s.iterations + 1
       .ok { s with file := s.file ++ [record row], iterations := it,
                    flushes := if it % s.flushEvery = 0 then s.flushes + 1 else s.flushes } resp'
 
 /-- `ResponseSink::File::close`: `writeln!(file, "{}", final_file_contents.unwrap_or(""))` — not called by
-`CompassApp::run` -/
+`CompassApp::run`, and there is no `Drop`: a sink that is dropped writes nothing more (the JSON array form
+then lacks its closing bracket) -/
 def FileSink.close (s : FileSink) : FileSink :=
-  if s.poisoned then s else { s with file := s.file ++ [record ((finalContents s.format).getD [])] }
+  if s.poisoned || s.failing then s else { s with file := s.file ++ [record ((finalContents s.format).getD [])] }
+
+/-- what `close` returns: the file name, or an error (`none`) when the lock is poisoned or the write fails -/
+def FileSink.closeName (s : FileSink) : Option String :=
+  if s.poisoned || s.failing then none else some s.name
 
 /-! ### `ResponseSink::Combined` (flattened depth-first; `ResponseSink::None` is the empty list) -/
 
@@ -330,6 +481,8 @@ inductive CombinedResult where
   | ok (ss : List FileSink) (resp : Json)
   | lockError (ss : List FileSink)
   | panic (ss : List FileSink)
+  | diverges (ss : List FileSink)
+  | ioError (ss : List FileSink) (resp : Json)
   deriving Inhabited
 
 /-- each member writes the response *as the previous member left it*; the first failure stops the walk -/
@@ -339,11 +492,27 @@ def writeCombined (N : NumOps) : List FileSink → Json → CombinedResult
     match s.write N resp with
     | .lockError s' => .lockError (s' :: ss)
     | .panic s' => .panic (s' :: ss)
+    | .diverges s' => .diverges (s' :: ss)
+    | .ioError s' resp' => .ioError (s' :: ss) resp'
     | .ok s' resp' =>
       match writeCombined N ss resp' with
       | .ok ss' r => .ok (s' :: ss') r
       | .lockError ss' => .lockError (s' :: ss')
       | .panic ss' => .panic (s' :: ss')
+      | .diverges ss' => .diverges (s' :: ss')
+      | .ioError ss' r => .ioError (s' :: ss') r
+
+/-- `ResponseSink::Combined::close`: members are closed in order, the first failure stops the walk (`?`); the
+result is the comma-joined non-empty names (`ResponseSink::None` contributes the empty name) -/
+def closeCombined : List FileSink → List FileSink × Option (List String)
+  | [] => ([], some [])
+  | s :: ss =>
+    match s.closeName with
+    | none => (s :: ss, none)
+    | some n =>
+      match closeCombined ss with
+      | (ss', some ns) => (s.close :: ss', some (if n.isEmpty then ns else n :: ns))
+      | (ss', none) => (s.close :: ss', none)
 
 /-! ### the batch runners: workers, schedules -/
 
@@ -374,6 +543,8 @@ def Run.step (N : NumOps) (persist : Bool) (s : Run) (w : Nat) : Run :=
       { s with sink := sink', queues := qs, returned := if persist then pushAt s.returned w r' else s.returned }
     | .lockError sink' => { s with sink := sink', queues := qs, failed := s.failed + 1 }
     | .panic sink' => { s with sink := sink', queues := qs, failed := s.failed + 1 }
+    | .diverges sink' => { s with sink := sink', queues := qs, failed := s.failed + 1 }
+    | .ioError sink' _ => { s with sink := sink', queues := qs, failed := s.failed + 1 }
 
 def Run.exec (N : NumOps) (persist : Bool) (s : Run) (schedule : List Nat) : Run :=
   schedule.foldl (Run.step N persist) s
@@ -402,6 +573,8 @@ def writeSeq (N : NumOps) : FileSink → List Json → Option (FileSink × List 
       | none => none
     | .lockError _ => none
     | .panic _ => none
+    | .diverges _ => none
+    | .ioError _ _ => none
 
 /-- `CompassApp::run` after input processing.  `inputErrors`: the error responses of the queries that failed
 input processing; the main thread writes them to the sink first (`for error_response in
@@ -416,20 +589,10 @@ def appRun (N : NumOps) (persist : Bool) (sink : FileSink) (queues : List (List 
   | none => none
   | some (sink₁, errors') =>
     let final := (Run.init sink₁ queues).exec N persist schedule
-    some (final.sink, final.returned.flatten ++ errors')
-
-/-! ### CSV reading side: how a reader splits a row -/
-
-/-- field boundaries as an RFC 4180 reader sees them: a comma separates unless inside double quotes; every
-`"` toggles the quoting state (`""` toggles twice).  Returns the raw fields. -/
-def splitAux : List Char → Bool → List Char → List (List Char) → List (List Char)
-  | [], _, cur, acc => (cur.reverse :: acc).reverse
-  | c :: cs, q, cur, acc =>
-    if c = '"' then splitAux cs (!q) (c :: cur) acc
-    else if c = ',' ∧ q = false then splitAux cs false [] (cur.reverse :: acc)
-    else splitAux cs q (c :: cur) acc
-
-def splitRow (row : List Char) : List (List Char) := splitAux row false [] []
+    -- `run_batch_with_responses` propagates a failed write (`?`): the whole run is an error;
+    -- `run_batch_without_responses` folds over `let _ = …` and drops it: the run succeeds
+    if persist && final.failed > 0 then none
+    else some (final.sink, final.returned.flatten ++ errors')
 
 end Sink
 end Compass
